@@ -229,3 +229,45 @@ package hash
 
 //@ func (HashingAlgorithm).String mode int props C09 tags purego
 //@ assigns nothing
+
+// ---------------------------------------------------------------------------------------------
+// SHA-2 wrappers (C13): thin wrappers over crypto/sha256 and crypto/sha512, whose streaming interface is an assumed
+// contract (contracts/trusted/stdlib.spec: ghost hkind / hacc). Proved: ComputeHash returns the digest of exactly `data`,
+// whatever was written to the hasher before (Reset first, one Write of the whole input, Sum on a nil prefix); sizes.
+//@ pred sha2Inv(s, kind, n) = s != nil && s.Hash != nil && s.Hash.hsize == n && s.Hash.hkind == kind
+
+//@ func NewSHA2_256 mode int props C13 C09 tags purego
+//@ assigns nothing
+//@ ensures typeis(result, *sha2_256Algo) && fresh(unbox(result, *sha2_256Algo)) && sha2Inv(unbox(result, *sha2_256Algo), 256, 32)
+
+//@ func NewSHA2_384 mode int props C13 C09 tags purego
+//@ assigns nothing
+//@ ensures typeis(result, *sha2_384Algo) && fresh(unbox(result, *sha2_384Algo)) && sha2Inv(unbox(result, *sha2_384Algo), 384, 48)
+
+//@ func (*sha2_256Algo).ComputeHash mode int props C13 C09 tags purego
+//@ requires sha2Inv(s, 256, 32)
+//@ assigns ghost(s.Hash)
+//@ ensures [digest-of-exactly-the-input] len(result) == 32 && seqid(result) == hashOf(256, seqid(data)) && sha2Inv(s, 256, 32)
+
+//@ func (*sha2_384Algo).ComputeHash mode int props C13 C09 tags purego
+//@ requires sha2Inv(s, 384, 48)
+//@ assigns ghost(s.Hash)
+//@ ensures [digest-of-exactly-the-input] len(result) == 48 && seqid(result) == hashOf(384, seqid(data)) && sha2Inv(s, 384, 48)
+
+//@ func (*sha2_256Algo).SumHash mode int props C13 C09 tags purego
+//@ requires sha2Inv(s, 256, 32)
+//@ assigns nothing
+//@ ensures [digest-of-what-was-written] len(result) == 32 && seqid(result) == hashOf(256, s.Hash.hacc) && unchanged(s.Hash.hacc)
+
+//@ func (*sha2_384Algo).SumHash mode int props C13 C09 tags purego
+//@ requires sha2Inv(s, 384, 48)
+//@ assigns nothing
+//@ ensures [digest-of-what-was-written] len(result) == 48 && seqid(result) == hashOf(384, s.Hash.hacc) && unchanged(s.Hash.hacc)
+
+//@ func (*sha2_256Algo).Algorithm mode int props C13 tags purego
+//@ assigns nothing
+//@ ensures result == SHA2_256
+
+//@ func (*sha2_384Algo).Algorithm mode int props C13 tags purego
+//@ assigns nothing
+//@ ensures result == SHA2_384
